@@ -13,6 +13,7 @@ import (
 
 	"golang.org/x/crypto/ocsp"
 
+	"math/rand"
 	"verif/harness/lab/crlgen"
 	"verif/harness/lab/gen"
 	"verif/harness/lab/origin"
@@ -20,7 +21,6 @@ import (
 	"verif/harness/lab/report"
 	"verif/harness/lab/sut"
 	"verif/harness/lab/world"
-	"math/rand"
 
 	"github.com/gr33nbl00d/caddy-revocation-validator/config"
 )
@@ -30,8 +30,12 @@ var ocspOutcomes = []string{"no-aia", "good", "revoked", "unavailable"}
 var crlOutcomes = []string{"none-known", "listed", "not-listed", "cdp-unavailable"}
 var shapes = []string{"empty", "leaf-int-root", "two-chains", "leaf-int", "leaf-only"}
 
-func ocspEnabled(m string) bool { return m == "" || m == "prefer_ocsp" || m == "prefer_crl" || m == "ocsp_only" }
-func crlEnabled(m string) bool  { return m == "" || m == "prefer_ocsp" || m == "prefer_crl" || m == "crl_only" }
+func ocspEnabled(m string) bool {
+	return m == "" || m == "prefer_ocsp" || m == "prefer_crl" || m == "ocsp_only"
+}
+func crlEnabled(m string) bool {
+	return m == "" || m == "prefer_ocsp" || m == "prefer_crl" || m == "crl_only"
+}
 
 // expectReject is the mode table, written out independently of the implementation.
 func expectReject(mode, oc, cc, shape string, aiaStrict, cdpStrict bool) bool {
